@@ -66,6 +66,33 @@ CLAIMS['C13'] = dict(
     note=("Attribute values contain no quote, semicolon, equals sign or tab (as every moPepGen parser emits them); per-transcript "
           "record sets are read through the pool's pointers (pointer.load), not through the variant-series conversion."),
     technique="TLA+ format definition + state machine; TLC validation of recorded round trips and file histories", ref='6 C13')
+CLAIMS['C01'] = dict(
+    text=("spec/Variants.tla + Peptides.tla define, with no graph, the set C01 requires: for every compatible haplotype of the "
+          "usable variants, apply it to the transcript, translate from every permitted start to the stop (annotated Sec read as U), "
+          "digest under the case's rule/exception/miscleavage/limits incl. M-removed start peptides, and subtract the digest of the "
+          "unmodified transcript and the canonical pool. CallVariantOracle has TLC compute that set for each generated input and "
+          "compare it with the FASTA the real callVariant wrote (Complete subset of output). Inputs: random references (both "
+          "strands, coding/non-coding, multi-exon, NF tags, Sec, several genes) x 1-5 small variants per transcript incl. dense "
+          "clusters x cleavage settings (all 35 rules in the thorough tier) x collapse knobs, complexity limits off."),
+    note=("Bounded exhaustive per input (all haplotypes) but sampled over inputs; small variants inside one exon; fusion/circRNA/"
+          "alternative-splicing backbones are exercised by C15-C17 and C06/C07 runs, not by this oracle; known findings: cleavage "
+          "patterns that look beyond P1/P1' (pepsin, caspases, trypsin exception, ...) are evaluated per graph node, and "
+          "--naa-to-collapse 1 loses the MRP/WKP context."),
+    technique="TLA+ definitional oracle evaluated by TLC per recorded input; implementation output validated against it", ref='6 C01')
+CLAIMS['C02'] = dict(
+    text=("Same oracle, other inclusion: every FASTA sequence must lie in Sound (as Complete but also allowing open-ended tail "
+          "fragments). In addition each input is re-run with binding complexity limits (max-variants-per-node 0/1/2, "
+          "additional-variants-per-misc 0/1) and with injected TimeoutErrors that walk caller_reducer's retry ladder (guarded "
+          "hook): the outputs must stay inside the unlimited output, i.e. limits and retries only remove peptides."),
+    note="As C01; retries are provoked by the guarded timeout hook, not by real timeouts.",
+    technique="TLA+ definitional oracle + paired runs under restricted limits", ref='6 C02')
+CLAIMS['C04'] = dict(
+    text=("OutputTrace.tla: for the FASTA and peptide table of every callVariant run of the C01 campaign and the FASTA of "
+          "callNovelORF / callAltTranslation runs, TLC checks: no sequence in CanonicalPool(proteome, cfg) computed by the spec "
+          "(incl. I->L images), length/mass limits, no X or *, each sequence once, (sequence, entry) pairs of table = FASTA, every "
+          "row's sub-sequence = the stated (clipped) slice, header entries unique."),
+    note="Canonical pool is the TLA+ pool of C10, not the tool's; mass ties excluded by construction.",
+    technique="TLC validation of recorded outputs against the TLA+ canonical pool and limits", ref='6 C04')
 PENDING = "not claimed in this revision: check not built yet (work in progress, see DESIGN.md section 12)"
 NA = {}
 
